@@ -48,7 +48,7 @@ RULE = ("(a) histories: every ordered pair and triple over a pool of %d state-pe
         " Also: the scheduler gates at Parser.read_token (every token fetch, also from the look-ahead queue); a fourth history configuration hands sources over as TokenScanner objects; the pool contains parses abandoned while look-ahead tokens are buffered; every document and pickle list returned earlier in a history is re-checked for later modification (G15); two-way interleaving sets above the tier's limit are sampled uniformly instead of enumerated (counted separately)." % len(POOL))
 ASSUMPTIONS = ["each concurrent parse uses its own Parser/TokenMatcher/AstBuilder instances (the library's classes are not documented as thread-safe objects; the property is about parsers working on different documents)",
                "results are compared after subtracting the id offset of the shared generator"]
-DECIDING = ["dialect_pairs_checked", "histories", "G13.evaluated", "schedules", "compile_purity_checks", "free_running_parses"]
+DECIDING = ["dialect_pairs_checked", "hashseed_documents_compared", "histories", "G13.evaluated", "schedules", "compile_purity_checks", "free_running_parses"]
 CONFIGS = ("none", "en", "fr", "en+scanner")
 
 
@@ -564,6 +564,45 @@ def run_dialect_pairs(spec, M):
                                         "reused": short(got, 300), "fresh": short(solo_res[b], 300)}, case)
 
 
+def run_hashseed(spec, M):
+    """Determinism across processes: the same documents in fresh interpreters that differ only in PYTHONHASHSEED (set and
+    dict-of-str iteration order, id() values): the envelopes must be identical."""
+    from .. import dialects as dl
+    docs = [("d/%s.feature" % d, dialect_doc(d)) for d in sorted(dl.master())] + [("p/%s.feature" % n, POOL[n]) for n in NAMES]
+    # steps whose keyword is the beginning of another listed keyword, with both as text: where an unordered collection of
+    # keywords would make the choice depend on the hash seed
+    for d in sorted(dl.master()):
+        spec_d = dl.master()[d]
+        kws = []
+        for k, _ in dl.step_keywords(spec_d):
+            if k not in kws:
+                kws.append(k)
+        lines = ["# language: " + d, spec_d["feature"][0] + ": f", "  " + spec_d["scenario"][0] + ": s"]
+        for k in kws:
+            if any(o != k and o.startswith(k) for o in kws) or any(o != k and k.startswith(o) for o in kws):
+                lines.append("    " + k + "x")
+        if len(lines) > 3:
+            docs.append(("k/%s.feature" % d, "\n".join(lines) + "\n"))
+    ref = None
+    for hs in spec["seeds"]:
+        out = observe.isolated_stream(docs, options=(False, True, True), fresh_per_source=True, hashseed=hs)
+        M.count("hashseed_processes")
+        if out is None:
+            M.inconc("isolated worker failed under PYTHONHASHSEED=%s" % hs)
+            return
+        M.count("hashseed_documents_compared", len(out))
+        M.case(h64(["hashseed", hs]))
+        if ref is None:
+            ref = (hs, out)
+            continue
+        for (uri, text), a, b in zip(docs, ref[1], out):
+            if a != b:
+                M.violation("C15.determinism", {"what": "the same document gives different envelopes in two fresh interpreters that differ only in PYTHONHASHSEED",
+                                                "uri": uri, "seeds": [ref[0], hs], "first": short(a, 200), "second": short(b, 200)},
+                            {"kind": "hashseed", "seeds": [ref[0], hs]})
+                return
+
+
 def plan(tier, seed):
     q = tier == "quick"
     specs = []
@@ -574,6 +613,7 @@ def plan(tier, seed):
                           "long": 40 if q else 1500, "generated": 30 if q else 800, "seed": seed, "n": 1})
     specs.append({"family": "markdown", "seed": seed, "n": 1})
     specs.append({"family": "w0", "seed": seed, "n": 1})
+    specs.append({"family": "hashseed", "seeds": ["0", "1", "2", "77", "4242"] if q else ["0", "1", "2", "3", "5", "8", "13", "77", "4242", "99991"], "seed": seed, "n": 1})
     for part in range(8):
         specs.append({"family": "dialect_pairs", "part": part, "parts": 8, "sample": 800 if q else None, "seed": seed, "n": 1})
     small = ["a5", "b5", "c5", "d5", "e5", "a4", "b4", "c4", "d4", "e4"]
@@ -627,12 +667,17 @@ def run_shard(spec, M):
         run_schedules(spec, M)
     elif f == "dialect_pairs":
         run_dialect_pairs(spec, M)
+    elif f == "hashseed":
+        run_hashseed(spec, M)
     elif f == "free":
         run_free(spec, M)
 
 
 def replay(case, M):
     k = case["kind"]
+    if k == "hashseed":
+        run_hashseed({"seeds": case["seeds"]}, M)
+        return
     if k == "dialect_pair":
         a, b = case["a"], case["b"]
         env = fresh("en")
